@@ -467,7 +467,8 @@ def translate(pins: dict | None = None):
         t.append(f"Lemma C15_tie : gen = {variant}.")
         t.append("Proof. vm_compute. reflexivity. Qed.")
     t.append("(* every hash_struct / hash_tag_bytes call site and its leading tag, as the kind table assumes *)")
-    t.append("Lemma C15_tie_sites : gen_sites = map site_of shipped_sites.")
+    t.append("(* a site is a row of the table, or a class-resolved site ...@K whose (K, form, tag) is already a row *)")
+    t.append("Lemma C15_tie_sites : sites_covered gen_sites shipped_sites = true.")
     t.append("Proof. vm_compute. reflexivity. Qed.")
     return "\n".join(v) + "\n", "\n".join(t) + "\n", got_pins, cfg, variant, sites
 
